@@ -346,3 +346,88 @@ pub fn run_recover(line: &str) -> String {
     }
     format!("{} N={} {}", id, n, out.join(" "))
 }
+
+/// Suite `recoverc`: single-byte corruptions of CURRENT, manifests and write-ahead logs of a closed
+/// database; for every mutated directory the image and what the real `DB::open` recovers from it.
+/// case: <id> <cfg> <history tokens...> # <max mutations per file>
+/// output: <id> then per mutation  <file>@<offset>:<new byte>|<open result>|<seq>|<scan>|<IMG..>
+pub fn run_recover_corrupt(line: &str) -> String {
+    let parts: Vec<&str> = line.split(" # ").collect();
+    let toks = split_nonempty(parts[0], ' ');
+    let id = toks[0];
+    let cfg = parse_cfg(toks[1]);
+    let max_per_file: usize = parts[1].trim().parse().unwrap();
+    let sim = SimFs::new();
+    let mut sess = match Session::open(sim.clone(), cfg) {
+        Ok(s) => s,
+        Err(e) => return format!("{} open-{}", id, e),
+    };
+    for op in &toks[2..] {
+        if sess.db.is_none() && op.as_bytes()[0] != b'O' {
+            continue;
+        }
+        sess.exec(op);
+    }
+    if sess.db.is_some() {
+        sess.quiesce();
+    }
+    let last_cfg = sess.cfg;
+    sess.close();
+    let mut out: Vec<String> = vec![];
+    let mut lcg: u64 = 777;
+    for (path, len) in sim.all_files() {
+        let name = path.to_string_lossy().to_string();
+        if name.ends_with("LOCK") || name.ends_with(".rdb") || len == 0 {
+            continue;
+        }
+        let mut offsets: Vec<usize> = vec![];
+        if len <= max_per_file {
+            offsets.extend(0..len);
+        } else {
+            let step = (len / max_per_file.max(1)).max(1);
+            let mut o = 0;
+            while o < len {
+                offsets.push(o);
+                o += step;
+            }
+            for t in 0..8.min(len) {
+                offsets.push(len - 1 - t);
+            }
+        }
+        let original = sim.read_whole(&path).unwrap();
+        for (i, off) in offsets.iter().enumerate() {
+            lcg = (lcg * 1103515245 + 12345) & 0x7fff_ffff;
+            let old = original[*off];
+            let newb = match i % 4 {
+                0 => old ^ (1 << ((lcg >> 8) & 7)),
+                1 => 0,
+                2 => 0xff,
+                _ => ((lcg >> 16) & 255) as u8,
+            };
+            if newb == old {
+                continue;
+            }
+            let mut data = original.clone();
+            data[*off] = newb;
+            let image = sim.snapshot();
+            image.overwrite(&path, &data);
+            let img = image_str(&image, last_cfg);
+            let im2 = image.clone();
+            let res = std::panic::catch_unwind(std::panic::AssertUnwindSafe(move || {
+                match Session::open(im2, last_cfg) {
+                    Err(e) => format!("open-{}|-|-", e),
+                    Ok(mut s) => {
+                        let seq = s.db().verif_dump().last_sequence;
+                        s.quiesce();
+                        let scan = s.scan_all(None);
+                        s.close();
+                        format!("ok|{}|{}", seq, scan)
+                    }
+                }
+            }))
+            .unwrap_or_else(|_| "panic|-|-".to_string());
+            out.push(format!("{}@{}:{}|{}|{}", name.replace("db/", "").replace('/', "_"), off, newb, res, img));
+        }
+    }
+    format!("{} N=0 {}", id, out.join(" "))
+}
